@@ -33,7 +33,10 @@ THEOREMS = [_T + n for n in [
     "C05_centroid_point", "C05_centroid_time_stamp", "C05_centroid_box",
     # follow-up: histories and call forms
     "C05_history_pure", "C05_history_poison", "C05_history_revisit", "C05_call_forms", "C05_call_forms_unary",
-    "C05_sig_shape"]]
+    "C05_sig_shape",
+    # follow-up (wave 5): the anchor points as binary64 values
+    "C05_points_selection", "C05_points_exact_mid", "C05_midpoint_rounded", "C05_points_rounded",
+    "C05_anchor_holds_sound", "C05_anchor_holds_model"]]
 LEVEL_TEXT = ("Lean theorems over the model: compute_bounds is exactly (min time, min freq, max time, max freq) over the "
               "coordinates (unique; time-only types over [0, MAX_FREQUENCY]; polygons: holes inside the shell envelope), it is "
               "the envelope of the modelled shapely conversion, the conversion is the shapely constructor call each "
@@ -54,7 +57,13 @@ LEVEL_TEXT = ("Lean theorems over the model: compute_bounds is exactly (min time
               "that call (`C05_history_pure`, `_poison`, `_revisit`), so every step of a run of the real code is judged on its "
               "own; Python's binding of positional / keyword arguments is modelled (`bindCall`) and all call forms of the four "
               "functions are proved to denote the same (geometry, position) (`C05_call_forms`, `_unary`, `C05_sig_shape`), the "
-              "parameter lists being re-read by introspection on every run (`sigOK` by `decide`).")
+              "parameter lists being re-read by introspection on every run (`sigOK` by `decide`). Wave 5: the anchor points "
+              "at the level of binary64 values: corner / edge components are selections of the bounds whatever the midpoint "
+              "values are (`C05_points_selection`, `pointAtM` = `pointAt` at the exact midpoints: `C05_points_exact_mid`), and "
+              "for every monotone rounding function that leaves the bounds alone the rounded midpoint stays inside them "
+              "(`C05_midpoint_rounded`, `C05_points_rounded`); the monitor `holdsAnchor` evaluated on the observed floats accepts "
+              "only points inside the bounds whose corner / edge components are the bounds bit for bit "
+              "(`C05_anchor_holds_sound`) and accepts the model's own answer (`C05_anchor_holds_model`).")
 LEVEL_NOTE = ("Trusted: Lean kernel, symbolic tracer (ordered-field semantics; shapely constructors / compute_bounds / "
               "geometry_to_shapely / Feature replaced by recording or symbolic stand-ins, by identity of the objects), shapely "
               "`bounds` as min/max of the shell vertices, shapely ring closure, GEOS segment length as sqrt(dx^2+dy^2) in "
@@ -68,6 +77,9 @@ LEVEL_NOTE = ("Trusted: Lean kernel, symbolic tracer (ordered-field semantics; s
               "are generator-bounded differential runs that validate the model against the code; they decide nothing by "
               "themselves. Trusted in addition: Python's argument binding as `bindCall` states it; a call without position "
               "is held to the default the signature declares (the documented 'bottom-left' when it declares none). "
+              "The symbolic ties are ordered-field statements: `start + 1.0 * (end - start)` traces to `end`; whether the code "
+              "*selects* a bound or computes it is observed only by the float-level monitor `holds_anchor` on decimal "
+              "geometries (generator-bounded; half of them rejection-sampled so that `a + (b - a) != b` or `b - (b - a) != a`). "
               "Model tied to the code by regenerated obligations and generator-bounded correspondence.")
 TECHNIQUE = ("Lean 4 proof over model; symbolic-trace equality obligations and table obligations regenerated from source; "
              "differential correspondence with Lean-evaluated property statements on the real I/O")
@@ -85,7 +97,11 @@ RULE = ("geometries of all nine types (random on dyadic grids of several scales,
         "overwritten) and re-read at the end, 9 types x 6 calls poison sweep; every special and random geometry lifted to its "
         "sibling types; extents 2^-7 ... 2^-40 at five time and four frequency offsets and bounds decided at the last bits; "
         "16 / 17 / 256 / 257 / 1023 / 1024 / 1100 vertices and 17 / 300 parts; all 121 points of a 0.01 s and a 0.1 Hz lattice; "
-        "every reported replay is confirmed to fail as the only thing a fresh process does; "
+        "every reported replay is confirmed to fail as the only thing a fresh process does; wave 5: decimal geometries "
+        "(milliseconds, tenths / hundredths of Hz, arbitrary binary64 values; all nine types, bounds pairs rejection-sampled "
+        "for inexact `end - start`) x the nine bounds positions judged on the float values (corner / edge components equal "
+        "to the bound bit for bit, every component inside the bounds, midpoints within 2 ulp of the correctly rounded "
+        "(a + b) / 2) x centroid / point_on_surface inside the bounds; "
         "non-trivial = the implementation returned a value; distinct = distinct (operation, input)")
 TRUSTED = ["shapely `bounds` = min/max over the vertices of the converted shape (polygon: shell)",
            "shapely LinearRing closure rule (open ring or closed 3-vertex ring gets its first vertex appended); "
@@ -111,7 +127,11 @@ NOT_COMPARED = ["error messages (only the error class)",
                 "centroid values of multi-ring shapes with a self-intersecting ring (orientation convention of GEOS not modelled)",
                 "polygons with a hole outside the shell envelope (OGC-invalid): bounds compared with the model "
                 "(shell only, as GEOS does), the all-coordinates clause is not asserted",
-                "the last 2 ulp of differences / half-sums off the dyadic grid (re-associated formulas round differently)",
+                "the last 2 ulp of differences / half-sums off the dyadic grid (re-associated formulas round differently): a "
+                "midpoint component is pinned to `inside [lo, hi] as floats, within 2 ulp of the correctly rounded (lo + hi) / 2 "
+                "and within 2^-50 (relative to the larger bound) of the exact midpoint`, not to the bit pattern of "
+                "`(lo + hi) / 2` (the unchanged code is bit-exact on 10^5 decimal geometries, but `lo + (hi - lo) / 2` is an "
+                "equally good midpoint and differs in the last bit); corner / edge components ARE pinned bit for bit",
                 "geometry-like objects that are not instances of the data model's geometry classes (duck-typed `.type` / "
                 "`.coordinates`: a dispatch by isinstance is a legitimate implementation); instances of subclasses are used",
                 "unvalidated coordinates the code does not accept today (numeric strings, numpy arrays put in by assignment)",
